@@ -714,6 +714,22 @@ func BigPacket(r *core.Rand) rtcp.Packet {
 		return &rtcp.ApplicationDefined{SubType: uint8(r.Intn(32)), SSRC: r.B32(), Name: "big!", Data: d}
 	case 1: // SDES: many long items
 		s := &rtcp.SourceDescription{}
+		if r.Chance(1, 3) {
+			// one chunk that alone has 64 KiB and more (where a 16-bit chunk length wraps), with
+			// small chunks around it
+			big := rtcp.SourceDescriptionChunk{Source: r.B32()}
+			for j := r.Pick(256, 257, 258, 260, 300, 512, 1000); j > 0; j-- {
+				big.Items = append(big.Items, rtcp.SourceDescriptionItem{Type: rtcp.SDESType(1 + r.Intn(8)), Text: string(r.Bytes(253 + r.Intn(3)))})
+			}
+			for i, n, at := 0, r.Intn(4), r.Intn(4); i <= n; i++ {
+				if i == at%(n+1) {
+					s.Chunks = append(s.Chunks, big)
+				} else {
+					s.Chunks = append(s.Chunks, rtcp.SourceDescriptionChunk{Source: r.B32(), Items: []rtcp.SourceDescriptionItem{{Type: rtcp.SDESCNAME, Text: TextN(r, r.Intn(12))}}})
+				}
+			}
+			return s
+		}
 		for i := 0; i < 31; i++ {
 			c := rtcp.SourceDescriptionChunk{Source: r.B32()}
 			for j := r.Pick(9, 10, 12, 30); j > 0; j-- {
